@@ -15,7 +15,8 @@ STATUTORY = tuple(r for r in RULES if r not in GENERIC)
 
 _NAME_WORDS = ['Adams', 'Baker', 'Chu', 'Diaz', 'Eve', 'Falk', 'Gray', 'Hahn', 'Ito', 'Jung',
                'Kim', 'Lund', 'Moe', 'Ngo', 'Orr', 'Pike', 'Quin', 'Roy', 'Sato', 'Tran']
-_ODD_WORDS = ['#1', '/*x', 'x*/', "O'Neil", 'Zoë', 'Łuk', '李', 'a=b', '[z]', '(q)', '-3', '0', 'é', '#', '/*', '*/']
+_ODD_WORDS = ['#1', '/*x', 'x*/', "O'Neil", 'Zoë', 'Łuk', '李', 'a=b', '[z]', '(q)', '-3', '0', 'é', '#', '/*', '*/',
+              '100%', '%d', '%s', '%(x)s', '{0}', '{', '}', '\\', '\\n', '$1', '&amp;', '<b>', '12', '1e3']
 
 
 def _name(rnd, i, odd):
@@ -364,6 +365,19 @@ def gen_case(rnd, rule=None, small=False, slow_ok=False, flags=None, large=False
                 e['ballots'].append([1, [[elig[0]]]])
     text = render_blt(e, rnd)
     return e, o, text
+
+
+def droop_tokens(o):
+    "the tokens of a [droop ...] line that embeds the option dict o in a ballot file"
+    out = []
+    for k, v in sorted(o.items()):
+        if k == 'rule':
+            out.insert(0, str(v))
+        elif isinstance(v, bool):
+            out.append("%s=%s" % (k, 'true' if v else 'false'))
+        else:
+            out.append("%s=%s" % (k, v))
+    return out
 
 
 # --------------------------------------------------------------------------
